@@ -25,6 +25,14 @@ class Raised(Exception):
         self.node = node
 
 
+class _Break(Exception):
+    pass
+
+
+class _Continue(Exception):
+    pass
+
+
 class _Return(Exception):
     def __init__(self, value):
         self.value = value
@@ -225,9 +233,53 @@ class Interp:
                 raise Raised(st)
         elif isinstance(st, ast.For):
             it = self.ev(st.iter)
+            broke = False
             for x in it:
                 self.store(st.target, x)
-                self.run_block(st.body)
+                try:
+                    self.run_block(st.body)
+                except _Continue:
+                    continue
+                except _Break:
+                    broke = True
+                    break
+            if not broke and st.orelse:
+                self.run_block(st.orelse)
+        elif isinstance(st, ast.While):
+            n_iter = 0
+            broke = False
+            while self.ev(st.test):
+                n_iter += 1
+                if n_iter > 100000:
+                    raise Unsupported('while loop does not terminate within 100000 iterations')
+                try:
+                    self.run_block(st.body)
+                except _Continue:
+                    continue
+                except _Break:
+                    broke = True
+                    break
+            if not broke and st.orelse:
+                self.run_block(st.orelse)
+        elif isinstance(st, ast.Break):
+            raise _Break()
+        elif isinstance(st, ast.Continue):
+            raise _Continue()
+        elif isinstance(st, ast.FunctionDef):
+            outer = self
+
+            def closure(*args, _fn=st, **kwargs):
+                params = [a.arg for a in _fn.args.posonlyargs + _fn.args.args]
+                env = dict(outer.env)               # read access to the enclosing scope (no nonlocal writes)
+                for a, d in zip(reversed(params), reversed(_fn.args.defaults)):
+                    env[a] = outer.ev(d)
+                env.update(dict(zip(params, args)))
+                env.update(kwargs)
+                sub = type(outer)(env, call_hook=outer.call_hook, attr_hook=outer.attr_hook)
+                if hasattr(outer, 'resolver'):
+                    sub.resolver = outer.resolver
+                return sub.call(_fn)
+            self.env[st.name] = closure
         else:
             raise Unsupported(type(st).__name__)
 
